@@ -537,6 +537,26 @@ def udpcl_run(params, obs):
             problems.append(('udp-queue', 'udpcl: receive queue %s, announced and not popped %s' % ([str(tid) for tid in queue], announced), 'recv_bundle_get_queue'))
         expect = list(params.get('expect_bundles', []))
         popped = []
+        if list(queue):
+            # a pop to a path that cannot be written fails and hands nothing out: the transfer stays listed and can still be popped
+            import os
+            import tempfile
+            scratch = tempfile.mkdtemp(prefix='vf-c18-')
+            try:
+                try:
+                    th._bus_call(sim, 'U', agent, path, type(agent).recv_bundle_pop_file, 'recv_bundle_pop_file',
+                                 (str(list(queue)[0]), os.path.join(scratch, 'no-such-dir', 'out.bin')))
+                    problems.append(('udp-queue', 'udpcl: recv_bundle_pop_file() to an unwritable path did not fail', 'recv_bundle_pop_file'))
+                except Exception:  # pylint: disable=broad-except
+                    pass
+                obs['udpcl_failed_pops'] = obs.get('udpcl_failed_pops', 0) + 1
+                still = th._bus_call(sim, 'U', agent, path, type(agent).recv_bundle_get_queue, 'recv_bundle_get_queue', ())
+                if [str(tid) for tid in still] != [str(tid) for tid in queue]:
+                    problems.append(('udp-queue', 'udpcl: recv_bundle_pop_file() failed (unwritable path) and handed nothing out, but the receive queue now '
+                                     'lists %s instead of %s' % ([str(tid) for tid in still], [str(tid) for tid in queue]), 'recv_bundle_pop_file'))
+                    queue = still
+            finally:
+                os.rmdir(scratch)
         for tid in list(queue):
             popped.append(bytes(th._bus_call(sim, 'U', agent, path, type(agent).recv_bundle_pop_data, 'recv_bundle_pop_data', (str(tid),))))
         if 'expect_bundles' in params:
